@@ -2,7 +2,8 @@ package checks
 
 // C15 — EVM execution cannot destroy protected accounts or spend vesting-locked coins.
 //
-// Exhaustive product  program × target-account kind × (vesting end time relative to block time) × clock placement,
+// Exhaustive product  program × target-account kind × balance shape × vesting time schedule × clock placement (the schedule
+// dimension — boundary values of every time field of every vesting account type — is in c15_sched.go),
 // executed on the real application: complete transactions through FinalizeBlock (one fresh world per case) and the
 // StateDB's own API (CreateAccount / DestroyAccount / Suicide / touch / SubBalance + CommitMultiStore) on CacheContext
 // branches of one world per clock placement.
@@ -75,47 +76,9 @@ func c15ExecTime(clock string) time.Time {
 
 var c15VestStart = time.Date(1980, 1, 1, 0, 0, 0, 0, time.UTC)
 
-// end-time labels, simplest first; the two controls come first.
-var c15EndsQuick = []string{"1990", "2200", "T-1s", "T", "T+1s", "2010", "2090"}
-var c15EndsThorough = []string{"1990", "2200", "T-1s", "T", "T+1s", "2010", "2090", "T-1h", "T+1h", "T-1y", "T+1y"}
-
-const (
-	c15CtlPast   = "1990"
-	c15CtlFuture = "2200"
-)
-
-func c15EndTime(clock, label string) time.Time {
-	t := c15ExecTime(clock)
-	switch label {
-	case "1990":
-		return time.Date(1990, 1, 1, 0, 0, 0, 0, time.UTC)
-	case "2010":
-		return time.Date(2010, 1, 1, 0, 0, 0, 0, time.UTC)
-	case "2090":
-		return time.Date(2090, 1, 1, 0, 0, 0, 0, time.UTC)
-	case "2200":
-		return time.Date(2200, 1, 1, 0, 0, 0, 0, time.UTC)
-	case "T-1s":
-		return t.Add(-time.Second)
-	case "T":
-		return t
-	case "T+1s":
-		return t.Add(time.Second)
-	case "T-1h":
-		return t.Add(-time.Hour)
-	case "T+1h":
-		return t.Add(time.Hour)
-	case "T-1y":
-		return t.AddDate(-1, 0, 0)
-	case "T+1y":
-		return t.AddDate(1, 0, 0)
-	}
-	panic("end " + label)
-}
-
 // c15WallClockSide is the ONLY place that reads the wall clock. It is used for defect signatures, never for a verdict.
-func c15WallClockSide(end time.Time) (unexpiredByWallClock bool) {
-	return end.Unix() > time.Now().UTC().Unix()
+func c15WallClockSide(endUnix int64) (unexpiredByWallClock bool) {
+	return endUnix > time.Now().UTC().Unix()
 }
 
 // ---------------------------------------------------------------------------
@@ -124,8 +87,9 @@ func c15WallClockSide(end time.Time) (unexpiredByWallClock bool) {
 
 type c15Target struct {
 	Family  string `json:"family"`
-	Variant string `json:"variant,omitempty"` // vesting: funded | empty
-	End     string `json:"end,omitempty"`     // vesting with an end time
+	Variant string `json:"variant,omitempty"` // vesting: empty | delegated | funded
+	End     string `json:"end,omitempty"`     // vesting with an end time: label of the end time (c15EndUnix)
+	Shape   string `json:"shape,omitempty"`   // continuous / periodic: start-time / period-length shape (c15Schedule)
 }
 
 func (t c15Target) id() string {
@@ -135,6 +99,9 @@ func (t c15Target) id() string {
 	}
 	if t.End != "" {
 		s += "/" + t.End
+	}
+	if t.Shape != "" {
+		s += "/" + t.Shape
 	}
 	return s
 }
@@ -204,7 +171,7 @@ func (t c15Target) class(clock string) string {
 	case t.Family == "vest-permanent":
 		return "permanent-" + t.Variant
 	case t.timed():
-		if c15EndTime(clock, t.End).Unix() > c15ExecTime(clock).Unix() {
+		if c15EndUnix(clock, t.End) > c15ExecTime(clock).Unix() {
 			return "vesting-" + t.Variant + "-unexpired"
 		}
 		return "vesting-" + t.Variant + "-expired"
@@ -215,19 +182,13 @@ func (t c15Target) class(clock string) string {
 var c15SingleFamilies = []string{"base-empty", "base-funded", "base-utwo", "none", "contract", "mod-custom-empty", "mod-custom-funded", "mod-evm", "mod-bonded"}
 var c15TimedFamilies = []string{"vest-delayed", "vest-continuous", "vest-periodic"}
 
-// c15AllTargets lists every target a world holds for the given end-label set.
-func c15AllTargets(ends []string) []c15Target {
+var c15Variants = []string{"empty", "delegated", "funded"}
+
+// c15SingleTargets are present in every world.
+func c15SingleTargets() []c15Target {
 	var out []c15Target
 	for _, f := range c15SingleFamilies {
 		out = append(out, c15Target{Family: f})
-	}
-	for _, v := range []string{"empty", "funded"} {
-		for _, f := range c15TimedFamilies {
-			for _, e := range ends {
-				out = append(out, c15Target{Family: f, Variant: v, End: e})
-			}
-		}
-		out = append(out, c15Target{Family: "vest-permanent", Variant: v})
 	}
 	return out
 }
@@ -249,7 +210,6 @@ func c15Coins(base, utwo, uthree int64) sdk.Coins {
 var (
 	c15FundedCoins    = c15Coins(10_000_000_000_000_000, 1000, 5)
 	c15OriginalVest   = c15Coins(9_000_000_000_000_000, 600, 0)
-	c15HalfVest       = c15Coins(4_500_000_000_000_000, 300, 0)
 	c15ModuleCoins    = c15Coins(5000, 11, 0)
 	c15ContractCoins  = c15Coins(1000, 5, 0)
 	c15SdFundedCoins  = c15Coins(1000, 7, 0)
@@ -258,52 +218,35 @@ var (
 	c15SdFundedAmount = big.NewInt(1000)
 )
 
-// c15GenesisAccount builds the genesis account of a target (nil for targets that need none).
-func c15GenesisAccount(t c15Target, clock string) *world.ExtraAccount {
+// c15GenesisAccount builds the genesis account of a target (nil for targets that need none). skip != "": the SDK does not accept
+// the account (unreachable) or has no defined schedule for it at the block time.
+func c15GenesisAccount(t c15Target, clock string) (x *world.ExtraAccount, skip string) {
 	switch t.Family {
 	case "mod-bonded", "none", "contract":
-		return nil
+		return nil, ""
 	case "mod-evm":
 		// as in an exported genesis: the module account of x/evm exists (the chain creates it on the first mint/burn)
-		return &world.ExtraAccount{Account: authtypes.NewEmptyModuleAccount(evmtypes.ModuleName, authtypes.Minter, authtypes.Burner)}
+		return &world.ExtraAccount{Account: authtypes.NewEmptyModuleAccount(evmtypes.ModuleName, authtypes.Minter, authtypes.Burner)}, ""
 	case "mod-custom-funded":
-		return &world.ExtraAccount{Account: authtypes.NewEmptyModuleAccount(c15CustomFunded), Coins: c15ModuleCoins}
+		return &world.ExtraAccount{Account: authtypes.NewEmptyModuleAccount(c15CustomFunded), Coins: c15ModuleCoins}, ""
 	case "mod-custom-empty":
-		return &world.ExtraAccount{Account: authtypes.NewEmptyModuleAccount(c15CustomEmpty)}
+		return &world.ExtraAccount{Account: authtypes.NewEmptyModuleAccount(c15CustomEmpty)}, ""
 	case "base-empty":
-		return &world.ExtraAccount{Account: authtypes.NewBaseAccount(t.acct().Acc(), nil, 0, 0)}
+		return &world.ExtraAccount{Account: authtypes.NewBaseAccount(t.acct().Acc(), nil, 0, 0)}, ""
 	case "base-funded":
-		return &world.ExtraAccount{Account: authtypes.NewBaseAccount(t.acct().Acc(), nil, 0, 0), Coins: c15FundedCoins}
+		return &world.ExtraAccount{Account: authtypes.NewBaseAccount(t.acct().Acc(), nil, 0, 0), Coins: c15FundedCoins}, ""
 	case "base-utwo":
-		return &world.ExtraAccount{Account: authtypes.NewBaseAccount(t.acct().Acc(), nil, 0, 0), Coins: c15Coins(0, 3, 0)}
+		return &world.ExtraAccount{Account: authtypes.NewBaseAccount(t.acct().Acc(), nil, 0, 0), Coins: c15Coins(0, 3, 0)}, ""
 	}
-	base := authtypes.NewBaseAccount(t.acct().Acc(), nil, 0, 0)
-	var acc authtypes.GenesisAccount
-	var err error
-	switch t.Family {
-	case "vest-permanent":
-		acc, err = vestingtypes.NewPermanentLockedAccount(base, c15OriginalVest)
-	case "vest-delayed":
-		acc, err = vestingtypes.NewDelayedVestingAccount(base, c15OriginalVest, c15EndTime(clock, t.End).Unix())
-	case "vest-continuous":
-		acc, err = vestingtypes.NewContinuousVestingAccount(base, c15OriginalVest, c15VestStart.Unix(), c15EndTime(clock, t.End).Unix())
-	case "vest-periodic":
-		total := c15EndTime(clock, t.End).Unix() - c15VestStart.Unix()
-		p1 := total / 2
-		acc, err = vestingtypes.NewPeriodicVestingAccount(base, c15OriginalVest, c15VestStart.Unix(), vestingtypes.Periods{
-			{Length: p1, Amount: c15HalfVest}, {Length: total - p1, Amount: c15HalfVest},
-		})
-	default:
-		panic("family " + t.Family)
+	acc, skip := c15BuildVesting(t, clock)
+	if skip != "" {
+		return nil, skip
 	}
-	if err != nil {
-		panic(fmt.Sprintf("genesis account %s: %v", t.id(), err))
-	}
-	x := &world.ExtraAccount{Account: acc}
+	x = &world.ExtraAccount{Account: acc}
 	if t.Variant == "funded" {
 		x.Coins = c15FundedCoins
 	}
-	return x
+	return x, ""
 }
 
 // ---------------------------------------------------------------------------
@@ -362,10 +305,16 @@ var c15Companion = c15Target{Family: "base-empty"}
 // world
 // ---------------------------------------------------------------------------
 
-func c15NewWorld(clock string, ends []string) *world.World {
+// c15NewWorld builds a world holding the single targets plus the given vesting targets (unreachable ones are left out).
+func c15NewWorld(clock string, vesting []c15Target) *world.World {
 	var extra []world.ExtraAccount
-	for _, t := range c15AllTargets(ends) {
-		if x := c15GenesisAccount(t, clock); x != nil {
+	seen := map[string]bool{}
+	for _, t := range append(c15SingleTargets(), vesting...) {
+		if seen[t.id()] {
+			continue
+		}
+		seen[t.id()] = true
+		if x, skip := c15GenesisAccount(t, clock); x != nil && skip == "" {
 			extra = append(extra, *x)
 		}
 	}
@@ -375,6 +324,17 @@ func c15NewWorld(clock string, ends []string) *world.World {
 		panic(fmt.Sprintf("C15 world %s: first block: %q %v", clock, br.Panic, br.Err))
 	}
 	return w
+}
+
+// c15Controls are the two accounts of the same family and variant whose end is long before / long after every block time.
+func c15Controls(t c15Target) []c15Target {
+	if t.timed() {
+		return []c15Target{{Family: t.Family, Variant: t.Variant, End: c15CtlPast}, {Family: t.Family, Variant: t.Variant, End: c15CtlFuture}}
+	}
+	if t.Family == "vest-permanent" {
+		return []c15Target{{Family: "vest-delayed", Variant: t.Variant, End: c15CtlPast}}
+	}
+	return nil
 }
 
 // ---------------------------------------------------------------------------
@@ -609,6 +569,12 @@ func c15Oracle(blockTime time.Time, pre, post *c15Snap, ex c15Exec) (fails []c15
 
 		// (2) protected accounts survive with the same type (and, unless legitimately paid, the same balances)
 		prot, why := c15Protected(p.acc, blockTime)
+		if va, ok := p.acc.(vestexported.VestingAccount); ok && !prot {
+			// the reference must agree with itself: the SDK reports no coins as still vesting once the raw end time has passed
+			if vc := va.GetVestingCoins(blockTime); !vc.IsZero() {
+				fail("alphabet-sanity", "%s: end time %d <= block time %d but the SDK reports %s as still vesting", name, va.GetEndTime(), blockTime.Unix(), vc)
+			}
+		}
 		if prot {
 			switch {
 			case !q.Exists:
@@ -737,6 +703,7 @@ type c15CaseResult struct {
 	Reason string // coarse reason of a failure (from the log; informational and for defect signatures only)
 	Detail string
 	Fails  []c15Fail
+	Skip   string // != "": not executed — the SDK rejects the account (unreachable) or has no schedule for it at the block time
 }
 
 func c15Reason(log string) string {
@@ -788,8 +755,8 @@ func c15Class(p, q *c15Acc, failed bool) string {
 func c15AddrWord(a common.Address) []byte { return common.LeftPadBytes(a.Bytes(), 32) }
 
 // c15RunTxCase executes one transaction-level case on a fresh world.
-func c15RunTxCase(clock string, ends []string, prog string, t c15Target) c15CaseResult {
-	w := c15NewWorld(clock, ends)
+func c15RunTxCase(clock string, prog string, t c15Target) c15CaseResult {
+	w := c15NewWorld(clock, append([]c15Target{t}, c15Controls(t)...))
 	T := w.BlockTime(c15ExecHeight)
 	x := t.addr()
 	also := append([]common.Address{x, c15AddrNone}, c15GadgetAddrs...)
@@ -1008,8 +975,8 @@ type c15KeeperWorld struct {
 	T    time.Time
 }
 
-func c15NewKeeperWorld(clock string, ends []string) *c15KeeperWorld {
-	w := c15NewWorld(clock, ends)
+func c15NewKeeperWorld(clock string, vesting []c15Target) *c15KeeperWorld {
+	w := c15NewWorld(clock, vesting)
 	kw := &c15KeeperWorld{w: w, root: w.Ctx(), T: w.BlockTime(c15ExecHeight)}
 	if !kw.root.BlockTime().Equal(kw.T) {
 		panic("C15: keeper root context is not at the planned block time")
@@ -1107,34 +1074,29 @@ type c15Group struct {
 	Program string   `json:"program"`
 	Family  string   `json:"family"`
 	Variant string   `json:"variant,omitempty"`
-	Ends    []string `json:"ends"`           // end labels the worlds are built with
-	Only    string   `json:"only,omitempty"` // informational: the end label of the reported case
+	Scheds  []string `json:"scheds,omitempty"` // timed families: "end" / "end~shape" labels of the cases, the two controls first
+	Only    string   `json:"only,omitempty"`   // informational: the label of the reported case
 }
 
 func (g c15Group) targets() []c15Target {
 	base := c15Target{Family: g.Family, Variant: g.Variant}
 	if !base.timed() {
-		out := []c15Target{base}
-		if base.Family == "vest-permanent" {
-			// reference for the defect signature: an account of the same variant whose vesting ended long ago
-			out = append(out, c15Target{Family: "vest-delayed", Variant: g.Variant, End: c15CtlPast})
-		}
-		return out
+		// vest-permanent: the second target is the reference for the defect signature, an account of the same variant whose
+		// vesting ended long ago
+		return append([]c15Target{base}, c15Controls(base)...)
 	}
 	var out []c15Target
-	for _, e := range g.Ends {
+	for _, l := range g.Scheds {
 		t := base
-		t.End = e
+		t.End, t.Shape = c15SplitSched(l)
 		out = append(out, t)
 	}
 	return out
 }
 
 func c15Groups(thorough bool) []c15Group {
-	ends := c15EndsQuick
 	txProgs, sndProgs := c15TxProgsQuick, c15SenderProgsQuick
 	if thorough {
-		ends = c15EndsThorough
 		txProgs, sndProgs = c15TxProgsThorough, c15SenderProgsThorough
 	}
 	type fam struct{ f, v string }
@@ -1142,7 +1104,7 @@ func c15Groups(thorough bool) []c15Group {
 	for _, f := range c15SingleFamilies {
 		fams = append(fams, fam{f, ""})
 	}
-	for _, v := range []string{"empty", "funded"} {
+	for _, v := range c15Variants {
 		for _, f := range append(append([]string{}, c15TimedFamilies...), "vest-permanent") {
 			fams = append(fams, fam{f, v})
 		}
@@ -1158,7 +1120,11 @@ func c15Groups(thorough bool) []c15Group {
 				if c15IsSenderProg(p) && !(c15Target{Family: f.f}).keyed() {
 					continue
 				}
-				out = append(out, c15Group{Clock: clock, Program: p, Family: f.f, Variant: f.v, Ends: ends})
+				g := c15Group{Clock: clock, Program: p, Family: f.f, Variant: f.v}
+				if (c15Target{Family: f.f}).timed() {
+					g.Scheds = c15SchedLabels(f.f, thorough, clock)
+				}
+				out = append(out, g)
 			}
 		}
 	}
@@ -1169,25 +1135,33 @@ func c15Groups(thorough bool) []c15Group {
 func c15EvalGroup(g c15Group, kws map[string]*c15KeeperWorld) (results []c15CaseResult, findings []ev.Finding) {
 	targets := g.targets()
 	for _, t := range targets {
+		if t.vesting() {
+			if _, skip := c15BuildVesting(t, g.Clock); skip != "" {
+				// not a case: the SDK does not accept this account (or has no schedule for it at the block time)
+				results = append(results, c15CaseResult{Target: t, Skip: skip})
+				continue
+			}
+		}
 		if c15IsKeeperProg(g.Program) {
-			kw := kws[g.Clock]
+			key := g.Clock + "|" + g.Family + "|" + g.Variant
+			kw := kws[key]
 			if kw == nil {
-				kw = c15NewKeeperWorld(g.Clock, g.Ends)
-				kws[g.Clock] = kw
+				kw = c15NewKeeperWorld(g.Clock, targets)
+				kws[key] = kw
 			}
 			results = append(results, kw.run(g.Program, t))
 		} else {
-			results = append(results, c15RunTxCase(g.Clock, g.Ends, g.Program, t))
+			results = append(results, c15RunTxCase(g.Clock, g.Program, t))
 		}
 	}
 	byEnd := map[string]*c15CaseResult{}
 	for i := range results {
-		byEnd[results[i].Target.End] = &results[i]
+		byEnd[results[i].Target.sched()] = &results[i]
 	}
 	T := c15ExecTime(g.Clock)
 	report := func(r *c15CaseResult, f c15Fail, sig string) {
 		rg := g
-		rg.Only = r.Target.End
+		rg.Only = r.Target.sched()
 		findings = append(findings, ev.Finding{Clause: f.Clause, Signature: sig,
 			Detail: fmt.Sprintf("[%s @%s, block time %s] %s on %s: %s (case: %s)", c15LevelOf(g.Program), g.Clock, T.Format(time.RFC3339), g.Program, r.Target.id(), f.Detail, r.Detail), Replay: rg})
 	}
@@ -1195,10 +1169,16 @@ func c15EvalGroup(g c15Group, kws map[string]*c15KeeperWorld) (results []c15Case
 	switch {
 	case base.timed():
 		past, future := byEnd[c15CtlPast], byEnd[c15CtlFuture]
+		if past == nil || future == nil || past.Skip != "" || future.Skip != "" {
+			panic(fmt.Sprintf("C15: group %+v has no controls", g))
+		}
 		for i := range results {
 			r := &results[i]
-			end := c15EndTime(g.Clock, r.Target.End)
-			blockSide := end.Unix() > T.Unix() // unexpired at block time
+			if r.Skip != "" {
+				continue
+			}
+			end := c15EndUnix(g.Clock, r.Target.End)
+			blockSide := end > T.Unix() // unexpired at block time: the raw int64 comparison x/auth/vesting and x/bank make
 			ctlBlock := past
 			if blockSide {
 				ctlBlock = future
@@ -1206,7 +1186,7 @@ func c15EvalGroup(g c15Group, kws map[string]*c15KeeperWorld) (results []c15Case
 			// the cut-off is evaluated against block time: an account whose end is strictly before (after) the block time behaves like
 			// the control whose end is long before (after) it. end == block time has no control: the property protects "end > block
 			// time" and makes no demand on whether an implementation also refuses the boundary itself
-			if len(r.Fails) == 0 && end.Unix() != T.Unix() && r.Class != ctlBlock.Class {
+			if len(r.Fails) == 0 && end != T.Unix() && r.Class != ctlBlock.Class {
 				r.Fails = append(r.Fails, c15Fail{"vesting-cutoff-evaluated-at-block-time", fmt.Sprintf("outcome %q (%s) differs from the outcome %q (%s) of the account whose end %s is on the same side of the block time",
 					r.Class, r.Reason, ctlBlock.Class, ctlBlock.Reason, ctlBlock.Target.End)})
 			}
@@ -1285,6 +1265,8 @@ func runC15(replay string) int {
 		"expectations are computed from the block time of the executing block only; the wall clock is read solely to label violations that are exactly what 'destroy guard compares with time.Now()' predicts",
 		"locked amounts come from the SDK vesting account's own LockedCoins(blockTime); the check trusts x/auth/vesting, not evermint code, for the schedule",
 		"a permanently locked account counts as a vesting account whose vesting period never ends",
+		"'vesting period not ended as of the block time' = EndTime > blockTime.Unix(), compared as int64 exactly as x/auth/vesting and x/bank do; no end time is ever converted into a time.Time by the check",
+		"a vesting account is reachable iff the x/auth/vesting constructor (which runs the Validate() that auth's ValidateGenesis applies to genesis accounts) accepts it; rejected accounts, and accounts whose LockedCoins panics inside the SDK at the block time, are counted under skipped/… and not executed",
 		"transaction-level cases run one fresh application per case (empty block 1, program in block 2); StateDB-level cases run on CacheContext branches of one application per clock placement, a panic = the operation is refused and its branch discarded",
 	}
 	if replay != "" {
@@ -1296,6 +1278,10 @@ func runC15(replay string) int {
 			}
 			rs, fs := c15EvalGroup(g, map[string]*c15KeeperWorld{})
 			for _, r := range rs {
+				if r.Skip != "" {
+					fmt.Printf("case %s/%s @%s: not a case — %s\n", g.Program, r.Target.id(), g.Clock, r.Skip)
+					continue
+				}
 				fmt.Printf("case %s/%s @%s: %s (%s) — %s\n", g.Program, r.Target.id(), g.Clock, r.Class, r.Reason, r.Detail)
 			}
 			return fs
@@ -1313,7 +1299,7 @@ func runC15(replay string) int {
 				rs2, fs2 := c15EvalGroup(g, map[string]*c15KeeperWorld{})
 				same := len(rs) == len(rs2) && len(fs) == len(fs2)
 				for j := 0; same && j < len(rs); j++ {
-					same = rs[j].Class == rs2[j].Class && rs[j].Detail == rs2[j].Detail
+					same = rs[j].Class == rs2[j].Class && rs[j].Detail == rs2[j].Detail && rs[j].Skip == rs2[j].Skip
 				}
 				if !same {
 					fmt.Fprintf(os.Stderr, "HARNESS-NONDETERMINISM in C15 group %d %+v\n", i, g)
@@ -1321,7 +1307,18 @@ func runC15(replay string) int {
 				}
 			}
 			for _, r := range rs {
+				if r.Skip != "" {
+					run.Count("skipped_cases", 1)
+					run.Count("skipped/"+r.Skip, 1)
+					continue
+				}
 				run.Count("evaluations", 1)
+				if r.Target.timed() {
+					run.Count("by_end/"+r.Target.End+"/"+r.Class, 1)
+					if r.Target.Shape != "" {
+						run.Count("by_shape/"+r.Target.Shape+"/"+r.Class, 1)
+					}
+				}
 				if c15IsKeeperProg(g.Program) {
 					run.Count("statedb_level_cases", 1)
 				} else {
@@ -1343,6 +1340,7 @@ func runC15(replay string) int {
 					run.Count("sanity/guard_refused_module_account", 1)
 				case r.Reason == "guard-vesting":
 					run.Count("sanity/guard_refused_unexpired_vesting_account", 1)
+					run.Count("guard_refused_by_end/"+r.Target.End, 1)
 				case r.Reason == "insufficient-spendable" && strings.Contains(cls, "unexpired"):
 					run.Count("sanity/bank_refused_locked_coins", 1)
 				}
@@ -1376,14 +1374,33 @@ func runC15(replay string) int {
 	if run.Thorough() {
 		ends, txp, sp = c15EndsThorough, c15TxProgsThorough, c15SenderProgsThorough
 	}
+	// every end label that lies after the block time in some clock placement must have been refused by the destroy guard at least once
+	for _, e := range ends {
+		after := false
+		for _, clock := range c15Clocks {
+			after = after || c15EndUnix(clock, e) > c15ExecTime(clock).Unix()
+		}
+		if c := "guard_refused_by_end/" + e; after && run.Counter(c) == 0 {
+			run.Fail(ev.Finding{Clause: "alphabet-sanity", Detail: "no vesting account with end time " + e + " (after the block time) was ever refused by the destroy guard: " + c, Replay: map[string]string{"counter": c}})
+		}
+	}
+	perWorld := 0
+	for _, f := range c15TimedFamilies {
+		perWorld += len(c15SchedLabels(f, run.Thorough(), c15ShapeClockQuick))
+	}
 	run.Coverage["groups"] = len(groups)
 	run.Coverage["exhaustive"] = true
 	run.Coverage["rule"] = fmt.Sprintf("full product, every case executed on the real app: clock placement {block time 2001-01-01T02:00Z, 2100-01-01T02:00Z} × program × target. "+
-		"Targets (%d per world): module accounts {bonded pool, evm, custom funded multi-denom, custom empty}; base accounts {empty, funded multi-denom, holding only utwo}; non-existent address; contract with code+storage+2 denoms; "+
-		"vesting {delayed, continuous, periodic} × {zero-balance zero-sequence, funded multi-denom (10e15 base of which 9e15 original vesting, 1000 utwo of which 600, 5 uthree)} × end time %v (T = block time of the executing block) and permanently locked × the same two variants. "+
-		"Transaction-level programs through FinalizeBlock (fresh app per case) %v with X = target, and %v with X = sender (amounts relative to balance − LockedCoins(T)); "+
+		"Targets: module accounts {bonded pool, evm, custom funded multi-denom, custom empty}; base accounts {empty, funded multi-denom, holding only utwo}; non-existent address; contract with code+storage+2 denoms; "+
+		"vesting {delayed, continuous, periodic} × balance shape %v (empty: zero balance, zero sequence, nothing delegated; delegated: zero balance, zero sequence, DelegatedVesting = OriginalVesting; funded: multi-denom, 10e15 base of which 9e15 original vesting, 1000 utwo of which 600, 5 uthree) "+
+		"× time schedule (%d schedules per balance shape over the three kinds) and permanently locked × the same balance shapes. "+
+		"Schedules: EndTime %v (T = block time of the executing block, W = MaxInt64−62135596800 = last unix second time.Unix represents without wrapping, NS/US/MS = MaxInt64/1e9, /1e6, /1e3, I32/U32 = MaxInt32/MaxUint32, Y9999 = 253402300799, MAX = MaxInt64) with StartTime 1980 and two equal periods; "+
+		"continuous and periodic additionally StartTime shapes %v and periodic period-length shapes %v, each crossed with EndTime %v (p=over only with MAX; in the quick tier the shaped schedules run under the 2100 clock placement only). "+
+		"Accounts are built by the x/auth/vesting constructors (= Validate() of auth's ValidateGenesis); rejected accounts are unreachable and counted under skipped/…, not executed. "+
+		"Transaction-level programs through FinalizeBlock (fresh app per case, holding the target and the two control accounts of its kind and balance shape) %v with X = target, and %v with X = sender (amounts relative to balance − LockedCoins(T)); "+
 		"StateDB-level programs on CacheContext branches %v. Every case: full pre/post observation of every auth account (type, sequence, all balances, code hash, storage, raw auth/bank/evm store scan for the address). "+
+		"Reference: 'vesting period not ended' = EndTime > T.Unix() as int64 (never through time.Time); locked coins = the SDK account's LockedCoins(T). "+
 		"distinct_nontrivial = cases whose target is protected/vesting-unexpired or whose outcome is not 'kept'",
-		len(c15AllTargets(ends)), ends, txp, sp, c15KeeperProgs)
+		c15Variants, perWorld, ends, c15Shapes("vest-continuous", run.Thorough()), c15PeriodShapes, map[bool][]string{false: c15ShapeEndsQuick, true: c15ShapeEndsThorough}[run.Thorough()], txp, sp, c15KeeperProgs)
 	return run.Finish()
 }
